@@ -592,6 +592,13 @@ func C01(tier string) int {
 		nc(fmt.Sprintf("language-map-with-non-string-entry-%d", vi), M{"type": "Person", "id": "https://x.example/p", "preferredUsernameMap": M{"en": "kept", "fr": bad}})
 		nc(fmt.Sprintf("language-map-with-non-string-entry-%d", vi), note("attachment", M{"type": "Image", "id": "https://x.example/i", "nameMap": M{"en": "kept", "fr": bad}}))
 	}
+	// empty language maps and empty objects under natural-language members
+	for _, member := range []string{"contentMap", "content", "nameMap", "summaryMap"} {
+		nc("empty-language-map", note(member, M{}))
+		nc("empty-language-map", note(member, L{M{}, M{"en": "x"}}))
+		nc("empty-language-map", note("attachment", M{"type": "Image", "id": "https://x.example/i", member: M{}}))
+	}
+	nc("empty-language-map", M{"type": "Person", "id": "https://x.example/p", "preferredUsernameMap": M{}})
 	// the library's alias form of @context ({vocabulary URI: alias}), per vocabulary
 	for _, v := range o.Vocabs {
 		for _, k := range o.TypeKeys() {
